@@ -71,6 +71,21 @@ sub fn_s(STRING var.p) STRING {
   }
   return var.p;
 }
+sub helper_be(BACKEND var.pbe) {
+  set var.pbe = b2;
+  set req.http.Helper = "be";
+}
+sub helper_be2(BACKEND var.pbe) {
+  set var.pbe = b;
+  set req.http.Helper = "be2";
+}
+sub helper_all(FLOAT var.pf, BOOL var.pb, RTIME var.pr, IP var.pip) {
+  set var.pf += 1.5;
+  set var.pb = !var.pb;
+  set var.pr += 1s;
+  set var.pip = "9.9.9.9";
+  set req.http.Helper = "all";
+}
 sub fn_i(INTEGER var.n) INTEGER {
   set var.n *= 2;
   return var.n;
@@ -79,7 +94,7 @@ sub fn_i(INTEGER var.n) INTEGER {
 
 func init() {
 	register("C13",
-		"straight-line and branching core-language programs over a pool of locals of every type and req headers, plus calls of user subroutines with typed parameters (procedural and functional) that assign to their parameters and own locals and run regex matches, and side-effect-free built-ins; the interpreter is driven statement by statement and the rendering/type/set-ness of every pooled name and re.group.0-3 is snapshotted before and after each statement; oracle (frame conditions): a statement changes only the names it assigns (re.group.* only if it contains a regex match), a call leaves caller locals, capture groups and argument variables unchanged; TIME, BACKEND and REGEX locals, req.backend and the declared backend identifiers are part of the snapshot and are exercised by time arithmetic inside concatenations, backend assignments and REGEX assignments/parameters; every built-in of builtin.yml whose argument and return types are scalar (STRING INTEGER FLOAT BOOL RTIME TIME IP; not strpad/randomstr, whose result size is an argument) is called with pooled variables as its arguments; two variables of a numeric type are seeded with extreme values (1e200, 1e308, 2^63-1, ...) and combined by every compound operator; unary minus/plus is applied to if(), grouped and already signed operands. kind objects: during a real request (miss, pass and error paths) set/add/unset of header A or B on one of req/bereq/beresp/obj/resp leaves the same-named headers of the other objects unchanged. non-trivial: the statement reads >=1 pooled variable other than its target through an operator or call; distinct by program",
+		"straight-line and branching core-language programs over a pool of locals of every type and req headers, plus calls of user subroutines with typed parameters (procedural and functional) that assign to their parameters and own locals and run regex matches, and side-effect-free built-ins; the interpreter is driven statement by statement and the rendering/type/set-ness of every pooled name and re.group.0-3 is snapshotted before and after each statement; oracle (frame conditions): a statement changes only the names it assigns (re.group.* only if it contains a regex match), a call leaves caller locals, capture groups and argument variables unchanged (parameters of type STRING, INTEGER, FLOAT, BOOL, RTIME, IP, TIME, REGEX and BACKEND, each assigned by the callee); TIME, BACKEND and REGEX locals, req.backend and the declared backend identifiers are part of the snapshot and are exercised by time arithmetic inside concatenations, backend assignments and REGEX assignments/parameters; every built-in of builtin.yml whose argument and return types are scalar (STRING INTEGER FLOAT BOOL RTIME TIME IP; not strpad/randomstr, whose result size is an argument) is called with pooled variables as its arguments; two variables of a numeric type are seeded with extreme values (1e200, 1e308, 2^63-1, ...) and combined by every compound operator; unary minus/plus is applied to if(), grouped and already signed operands. kind objects: during a real request (miss, pass and error paths) set/add/unset of header A or B on one of req/bereq/beresp/obj/resp leaves the same-named headers of the other objects unchanged. non-trivial: the statement reads >=1 pooled variable other than its target through an operator or call; distinct by program",
 		genC13, checkC13, 10*time.Second)
 }
 
@@ -209,6 +224,10 @@ func genC13(t *rapid.T) any {
 				{fmt.Sprintf("set %s = \"^a(b+)\";\n", rv), []string{rv}},
 				{fmt.Sprintf("set %s = \"x$\";\n", rv), []string{rv}},
 				{"call helper_re(\"^lit\");\n", []string{"req.http.Helper"}},
+				// parameters of the remaining types, each assigned by the callee: the argument variables keep their values
+				{"call helper_be(var.be1);\n", []string{"req.http.Helper"}},
+				{"call helper_be2(var.be1);\n", []string{"req.http.Helper"}},
+				{fmt.Sprintf("call helper_all(%s, %s, %s, %s);\n", pickS(g, pool.Floats, "af"), pickS(g, pool.Bools, "ab"), pickS(g, pool.RTimes, "ar"), pool.IPs[0]), []string{"req.http.Helper"}},
 				{fmt.Sprintf("set %s = fn_t(%s);\n", st, tv), []string{st}},
 			}).Draw(t, "extrastep")
 			c.Steps = append(c.Steps, C13Step{Src: x.src, Kind: "extra-types", MayWrite: x.w, Reads: true, Match: strings.Contains(x.src, "helper_re")})
